@@ -182,9 +182,9 @@ theorem vault_authentic (key : Nat) (reply : Reply B) (p : Pad) (h : getVault ke
         | doesNotMatch => simp [netGet] at hnet
     subst hrep
     split at h
-    · dsimp only at h
-      split at h
+    · split at h
       · rename_i p' rest hsel
+        simp only [latestPads, Gen.ClientRead.vaultSplitFiltersBeforeMax, ↓reduceIte] at hsel
         simp only [Except.ok.injEq] at h
         subst h
         have hmem : p' ∈ ((m.filterMap padOf).filter (splitAccepts key)).filter
@@ -205,6 +205,61 @@ theorem vault_authentic (key : Nat) (reply : Reply B) (p : Pad) (h : getVault ke
       · cases h
     · cases h
   · cases h
+
+/-! ### vault_returns_authentic_max — forged and foreign versions are discarded, they do not decide the outcome -/
+
+/-- When the network layer hands the vault read one record that is a version owned by the requested key with a valid
+signature, that version is returned. -/
+theorem vault_returns_authentic_single (key : Nat) (reply : Reply B) (r : Rec B) (p : Pad)
+    (hnet : netGet reply = .ok r) (hp : padOf r = some p) (hauth : Authentic key p) :
+    getVault key reply = .ok p := by
+  unfold getVault
+  rw [hnet]
+  simp only [hp, (okAccepts_iff key p).2 hauth, ↓reduceIte]
+
+/-- When the split reaches the vault read and the map holds at least one version owned by the requested key with a
+valid signature — next to whatever unsigned, wrongly signed, foreign or undecodable entries, with whatever counters —
+the read succeeds with such a version of the highest counter among them. -/
+theorem vault_returns_authentic_max (key : Nat) (reply : Reply B) (m : List (Rec B))
+    (hnet : netGet reply = .error (.split m))
+    (hex : ∃ r ∈ m, ∃ q, padOf r = some q ∧ Authentic key q) :
+    ∃ p, getVault key reply = .ok p ∧ Authentic key p ∧ (∃ r ∈ m, padOf r = some p) ∧
+      ∀ r ∈ m, ∀ q, padOf r = some q → Authentic key q → q.ctr ≤ p.ctr := by
+  obtain ⟨r0, hr0, q0, hq0, hq0a⟩ := hex
+  -- the authentic versions, and one of the highest counter among them
+  have hq0in : q0 ∈ (m.filterMap padOf).filter (splitAccepts key) := by
+    rw [List.mem_filter, List.mem_filterMap]
+    exact ⟨⟨r0, hr0, hq0⟩, (splitAccepts_iff key q0).2 hq0a⟩
+  obtain ⟨qm, hqm, hqmc⟩ := maxCtr_attained _ q0 hq0in
+  have hne : latestPads key m ≠ [] := by
+    simp only [latestPads, Gen.ClientRead.vaultSplitFiltersBeforeMax, ↓reduceIte]
+    intro hnil
+    have : qm ∈ ((m.filterMap padOf).filter (splitAccepts key)).filter
+        (fun p => p.ctr == maxCtr ((m.filterMap padOf).filter (splitAccepts key))) := by
+      rw [List.mem_filter]; exact ⟨hqm, by simp [hqmc]⟩
+    rw [hnil] at this; cases this
+  cases hl : latestPads key m with
+  | nil => exact absurd hl hne
+  | cons p rest =>
+    have hres : getVault key reply = .ok p := by
+      unfold getVault
+      rw [hnet]
+      simp only [Gen.ClientRead.vaultSplitDropsUndeserialisable, Bool.true_or, ↓reduceIte, hl]
+    obtain ⟨ha, _, _⟩ := vault_authentic key reply p hres
+    have hmem : p ∈ latestPads key m := by rw [hl]; exact List.mem_cons_self
+    simp only [latestPads, Gen.ClientRead.vaultSplitFiltersBeforeMax, ↓reduceIte] at hmem
+    rw [List.mem_filter] at hmem
+    obtain ⟨hin, hmax⟩ := hmem
+    rw [List.mem_filter, List.mem_filterMap] at hin
+    obtain ⟨⟨x, hx, hxp⟩, _⟩ := hin
+    refine ⟨p, hres, ha, ⟨x, hx, hxp⟩, ?_⟩
+    intro y hy q hq hqa
+    have hqin : q ∈ (m.filterMap padOf).filter (splitAccepts key) := by
+      rw [List.mem_filter, List.mem_filterMap]
+      exact ⟨⟨y, hy, hq⟩, (splitAccepts_iff key q).2 hqa⟩
+    have := maxCtr_ge _ q hqin
+    simp only [beq_iff_eq] at hmax
+    omega
 
 /-! ### no_authentic_no_data -/
 
@@ -292,6 +347,9 @@ example : getVault (B := Nat) 0 (.err (.split [⟨some .scratchpad, .pad good⟩
 example : getVault (B := Nat) 0 (.err (.split [⟨some .scratchpad, .pad good⟩, ⟨some .scratchpad, .pad unsigned⟩])) = .ok good := rfl
 example : getVault (B := Nat) 0 (.err (.split [⟨some .chunk, .junk⟩, ⟨some .scratchpad, .pad good⟩, ⟨some .scratchpad, .pad foreign⟩]))
     = .ok good := rfl
+/-- a forged higher-counter version next to the authentic one does not turn the read into `Missing` -/
+example : getVault (B := Nat) 0 (.err (.split [⟨some .chunk, .junk⟩, ⟨some .scratchpad, .pad good⟩, ⟨some .scratchpad, .pad unsigned⟩]))
+    = .ok good := rfl
 example : getVault (B := Nat) 0 (.err (.split [⟨some .scratchpad, .pad unsigned⟩, ⟨some .scratchpad, .pad foreign⟩]))
     = .error .invalid := rfl
 
@@ -304,6 +362,8 @@ end SafeNet.Props.C15
 #print axioms SafeNet.Props.C15.data_authentic
 #print axioms SafeNet.Props.C15.data_unforgeable
 #print axioms SafeNet.Props.C15.vault_authentic
+#print axioms SafeNet.Props.C15.vault_returns_authentic_single
+#print axioms SafeNet.Props.C15.vault_returns_authentic_max
 #print axioms SafeNet.Props.C15.no_authentic_no_chunk
 #print axioms SafeNet.Props.C15.no_authentic_no_vault
 #print axioms SafeNet.Props.C15.no_authentic_no_data
